@@ -40,8 +40,8 @@ func constStrings(v ssa.Value, depth int) ([]string, bool) {
 func collectRuntimeRefs(p *Prog) []rtRef {
 	var out []rtRef
 	nameArg := map[string]int{
-		"js_parser.(*parser).importFromRuntime":                 2,
-		"js_parser.(*parser).callRuntime":                       2,
+		"js_parser.(*parser).importFromRuntime":                  2,
+		"js_parser.(*parser).callRuntime":                        2,
 		"graph.(*LinkerGraph).GenerateRuntimeSymbolImportAndUse": 3,
 	}
 	for _, fn := range p.ModuleFuncs() {
